@@ -67,6 +67,15 @@ def _base_bundles():
                    create_time=2000 + idx, seqno=idx, lifetime=100000, frag_offset=None, total_adu_len=None, crc=None)
         out.append(dict(primary=pri, blocks=[dict(type=10, num=2, flags=1, crc_type=pay_crc, data=bytes.fromhex('82181e01'), crc=None),
                                              dict(type=1, num=1, flags=0, crc_type=pay_crc, data=record, crc=None)]))
+    # the payload block not in last place (RFC 9171 wants it last; this agent processes such a bundle, so damage to the protected
+    # blocks behind the payload must be noticed like any other)
+    for (crc, dest) in ((1, 'dtn://other/svc'), (2, 'dtn://me/svc')):
+        idx += 1
+        pri = dict(version=7, flags=bpv7.FLAG_REQ_RECEPTION | bpv7.FLAG_REQ_FORWARDING, crc_type=crc, dest=dest, src='dtn://src/a', report_to='dtn://rep/x',
+                   create_time=3000 + idx, seqno=idx, lifetime=100000, frag_offset=None, total_adu_len=None, crc=None)
+        out.append(dict(primary=pri, blocks=[dict(type=1, num=1, flags=0, crc_type=crc, data=bytes(range(9)), crc=None),
+                                             dict(type=10, num=2, flags=0, crc_type=crc, data=bytes.fromhex('82181e01'), crc=None),
+                                             dict(type=192, num=3, flags=0, crc_type=crc, data=b'\x07\x08', crc=None)]))
     return out
 
 
@@ -78,7 +87,7 @@ def cases(tier, seed):
         out.append(dict(id='flips-%d' % idx, kind='flips', base=idx))
         out.append(dict(id='bursts-%d' % idx, kind='bursts', base=idx, seed=seed * 977 + idx, count=4500 if thorough else 300))
     # exhaustive single-octet substitution, sliced by offset so that the shards balance
-    for idx in (range(0, len(bases), 4) if thorough else (1, len(bases) - 1)):
+    for idx in (sorted(set(range(0, len(bases), 4)) | {len(bases) - 2, len(bases) - 1}) if thorough else (1, len(bases) - 3, len(bases) - 1)):
         size = len(bpv7.encode(bases[idx]))
         step = 8
         for lo in range(0, size, step):
